@@ -553,6 +553,8 @@ def run_check(pid, tier="quick", seed=None, replay=None):
                 if r is None:
                     continue
                 evaluations += 1
+                if mout is not None and mout[i].startswith("SKIP"):
+                    stats_all["model_skipped"] = stats_all.get("model_skipped", 0) + 1
                 key = op
                 if key not in distinct:
                     distinct.add(key)
